@@ -13,9 +13,9 @@ from simkit import gen, model
 from simkit.harness import World
 
 TIERS = {
-    "C04": {"quick": 320, "thorough": 12000},
-    "C11": {"quick": 320, "thorough": 12000},
-    "C12": {"quick": 1600, "thorough": 60000},
+    "C04": {"quick": 1200, "thorough": 30000},
+    "C11": {"quick": 1200, "thorough": 30000},
+    "C12": {"quick": 2400, "thorough": 80000},
 }
 LEVEL = {"C04": "fault_enumeration", "C11": "fault_enumeration", "C12": "exploration"}
 RULE = {
@@ -792,7 +792,7 @@ def valid(sc):
     def closed(ids):
         return all(ch[t] <= set(ids) for t in ids if t.startswith("T"))
 
-    if sc["prop"] in ("C04", "C12"):
+    if sc["prop"] == "C04" or (sc["prop"] == "C12" and sc["cfg"]["use_index"]):
         if not closed(dest):
             return False
     if sc["prop"] == "C04":
